@@ -310,6 +310,143 @@ theorem C03_batchWith (bits limbs c : ℕ) (base : G) (scalars : List ℕ) (hc1 
 /-- bn254: fr.Bits = 254, fr.Limbs = 4, window 5 -/
 example : (1 : ℕ) ≤ 5 ∧ 5 ≤ 16 ∧ 254 ≤ 64 * 4 ∧ lastC 254 5 ≤ 15 := by decide
 
+/-! ### window-boundary batches (op `batchwin`) -/
+
+theorem winSum_lt (w : ℕ) (d : ℕ → ℕ) : ∀ m, (∀ j, j < m → d j < 2 ^ w) → winSum w d m < 2 ^ (w * m)
+  | 0, _ => by simp [winSum]
+  | m+1, h => by
+    have ih := winSum_lt w d m (fun j hj => h j (by omega))
+    have hd := h m (by omega)
+    have h1 : d m * 2 ^ (w * m) ≤ (2 ^ w - 1) * 2 ^ (w * m) := Nat.mul_le_mul_right _ (by omega)
+    have h2 : (2 ^ w - 1) * 2 ^ (w * m) + 2 ^ (w * m) = 2 ^ (w * m) * 2 ^ w := by
+      have h3 : 2 ^ (w * m) ≤ 2 ^ w * 2 ^ (w * m) := Nat.le_mul_of_pos_left _ (by positivity)
+      rw [Nat.sub_mul, one_mul, mul_comm (2 ^ (w * m))]
+      omega
+    rw [winSum, Nat.mul_succ, pow_add]
+    omega
+
+/-- the scalars of the window-boundary family are REDUCED (`< r`, hence admissible batch scalars), for every window width
+`w ≥ 1`, seed and index, as soon as `r` reaches the top window (`2^(w(nb−1)) ≤ r`: true when `r` has `bits` bits) -/
+theorem C03_winScalar_lt (bits r w seed i : ℕ) (hnb : 1 ≤ computeNbChunks bits w)
+    (hr : 2 ^ (w * (computeNbChunks bits w - 1)) ≤ r) : winScalar bits r w seed i < r := by
+  unfold winScalar
+  dsimp only
+  obtain ⟨nb, hnbe⟩ : ∃ nb, computeNbChunks bits w = nb + 1 := ⟨computeNbChunks bits w - 1, by omega⟩
+  rw [hnbe] at hr ⊢
+  simp only [Nat.add_sub_cancel] at hr ⊢
+  rw [winSum]
+  have hlow : winSum w (winDigit w (nb + 1) (r / 2 ^ (w * nb)) seed i) nb < 2 ^ (w * nb) := by
+    apply winSum_lt
+    intro j hj
+    unfold winDigit
+    dsimp only
+    rw [if_neg (by omega)]
+    split <;> exact Nat.mod_lt _ (by positivity)
+  have htop : winDigit w (nb + 1) (r / 2 ^ (w * nb)) seed i nb ≤ r / 2 ^ (w * nb) - 1 := by
+    unfold winDigit
+    dsimp only
+    rw [if_pos rfl]
+    split <;> omega
+  have hq : 1 ≤ r / 2 ^ (w * nb) := (Nat.one_le_div_iff (by positivity)).2 hr
+  have h1 := Nat.mul_le_mul_right (2 ^ (w * nb)) htop
+  have h2 : (r / 2 ^ (w * nb) - 1) * 2 ^ (w * nb) + 2 ^ (w * nb) = r / 2 ^ (w * nb) * 2 ^ (w * nb) := by
+    have h3 : 2 ^ (w * nb) ≤ r / 2 ^ (w * nb) * 2 ^ (w * nb) := Nat.le_mul_of_pos_left _ hq
+    rw [Nat.sub_mul, one_mul]
+    omega
+  have h4 := Nat.div_mul_le_self r (2 ^ (w * nb))
+  omega
+
+theorem winSum_window (w : ℕ) (d : ℕ → ℕ) : ∀ m, (∀ j, j < m → d j < 2 ^ w) → ∀ j, j < m →
+    (winSum w d m / 2 ^ (w * j)) % 2 ^ w = d j
+  | 0, _, j, hj => by omega
+  | m+1, h, j, hj => by
+    have hlt := winSum_lt w d m (fun j hj => h j (by omega))
+    rw [winSum]
+    rcases Nat.lt_or_ge j m with hjm | hjm
+    · have ih := winSum_window w d m (fun j hj => h j (by omega)) j hjm
+      obtain ⟨t, ht⟩ : ∃ t, m = j + 1 + t := ⟨m - (j + 1), by omega⟩
+      have e : d m * 2 ^ (w * m) = 2 ^ (w * j) * (2 ^ w * (d m * 2 ^ (w * t))) := by
+        rw [ht]; ring
+      rw [e, Nat.add_mul_div_left _ _ (by positivity), Nat.add_mul_mod_self_left, ih]
+    · have hje : j = m := by omega
+      subst hje
+      rw [Nat.add_mul_div_right _ _ (by positivity), Nat.div_eq_of_lt hlt, Nat.zero_add,
+        Nat.mod_eq_of_lt (h j (by omega))]
+
+/-- the `w`-bit window `j` of a scalar of the family IS the prescribed value `winDigit … j` (so the boundary values, the carry
+into the top window and the clipped top values are really reached), for every order `r < 2^(w·nb)` -/
+theorem C03_winScalar_window (bits r w seed i j : ℕ) (hnb : 1 ≤ computeNbChunks bits w)
+    (hr : r < 2 ^ (w * computeNbChunks bits w)) (hj : j < computeNbChunks bits w) :
+    (winScalar bits r w seed i / 2 ^ (w * j)) % 2 ^ w =
+      winDigit w (computeNbChunks bits w) (r / 2 ^ (w * (computeNbChunks bits w - 1))) seed i j := by
+  unfold winScalar
+  dsimp only
+  obtain ⟨nb, hnbe⟩ : ∃ nb, computeNbChunks bits w = nb + 1 := ⟨computeNbChunks bits w - 1, by omega⟩
+  rw [hnbe] at hr hj ⊢
+  simp only [Nat.add_sub_cancel]
+  apply winSum_window w _ (nb + 1) _ j hj
+  intro k hk
+  unfold winDigit
+  dsimp only
+  have htop : r / 2 ^ (w * nb) < 2 ^ w := by
+    apply Nat.div_lt_of_lt_mul
+    rw [← pow_add, ← Nat.mul_succ]; exact hr
+  have hpos : 0 < 2 ^ w := Nat.two_pow_pos w
+  split
+  · split <;> omega
+  · split <;> exact Nat.mod_lt _ (by positivity)
+
+theorem baseTableAux_length {H : Type} (O : GOps H) (base : H) : ∀ n cur, (baseTableAux O base n cur).length = n
+  | 0, _ => rfl
+  | n+1, cur => by rw [baseTableAux, List.length_cons, baseTableAux_length O base n]
+
+/-- the lazily evaluated table holds the values of `baseTable` at EVERY index (the default beyond its length included) -/
+theorem lazyTable_eq (base : G) (T k : ℕ) :
+    lazyTable (GOps.ofGroup G) base T k = (baseTable (GOps.ofGroup G) base T).getD k 0 := by
+  unfold lazyTable
+  split
+  · rename_i h
+    rw [C03_mulWindowed, baseTable_getD base T k h]
+    exact natCast_zsmul base (k + 1)
+  · rename_i h
+    rw [List.getD_eq_getElem?_getD, List.getElem?_eq_none (by unfold baseTable; rw [baseTableAux_length]; omega)]
+    rfl
+
+/-- `batchOne` only reads its table through `getD`: over ANY dictionary it is `batchOneF` of the lookup function -/
+theorem batchOneF_getD {H : Type} (O : GOps H) (c : ℕ) (tbl : List H) (digits : List ℕ) :
+    batchOneF O c (fun k => tbl.getD k O.zero) digits = batchOne O c tbl digits := rfl
+
+/-- the sampled entries of a window-boundary batch as the driver computes them (`batchSampleWin`: window size `bestC bits n`,
+lazily evaluated table) are `sᵢ • base` for every sample of indices, under the hypotheses of `C03_batchWith` on the selected
+window -/
+theorem C03_batchSampleWin (bits limbs n : ℕ) (base : G) (scalarAt : ℕ → ℕ) (idx : List ℕ)
+    (hc1 : 1 ≤ bestC bits n) (hc : bestC bits n ≤ 16) (hbits : 1 ≤ bits) (hl : bits ≤ 64 * limbs)
+    (hlast : lastC bits (bestC bits n) ≤ 15) (hs : ∀ i ∈ idx, scalarAt i < 2 ^ bits) :
+    batchSampleWin (GOps.ofGroup G) bits limbs n base scalarAt idx = idx.map (fun i => scalarAt i • base) := by
+  have h := C03_batchWith bits limbs (bestC bits n) base (idx.map scalarAt) hc1 hc hbits hl hlast (by
+    intro s hs'
+    obtain ⟨i, hi, rfl⟩ := List.mem_map.1 hs'
+    exact hs i hi)
+  unfold batchWith at h
+  dsimp only at h
+  rw [List.map_map, List.map_map] at h
+  unfold batchSampleWin
+  dsimp only
+  refine Eq.trans ?_ h
+  apply List.map_congr_left
+  intro i _
+  have e : lazyTable (GOps.ofGroup G) base (1 <<< ((if bestC bits n > lastC bits (bestC bits n) then bestC bits n
+      else lastC bits (bestC bits n)) - 1)) = fun k => (baseTable (GOps.ofGroup G) base (1 <<< ((if bestC bits n >
+      lastC bits (bestC bits n) then bestC bits n else lastC bits (bestC bits n)) - 1))).getD k (GOps.ofGroup G).zero := by
+    funext k; exact lazyTable_eq base _ k
+  rw [e, batchOneF_getD]
+  rfl
+
+/-- the family on the real sizes: bls24-315 (253-bit order, window 11 = the window that divides 253) -/
+example : winScalar 253 0x196deac24a9da12b25fc7ec9cf927a98c8c480ece644e36419d0c5fd00c00001 11 7 3 <
+    0x196deac24a9da12b25fc7ec9cf927a98c8c480ece644e36419d0c5fd00c00001 :=
+  C03_winScalar_lt _ _ _ _ _ (by decide) (by norm_num [computeNbChunks])
+
 /-- Aliasing (op `C03 alias <pat> <line>`): the specification is BY VALUE. Whatever sharing pattern between the receiver, the
 point operands and the scalars the harness executes the call with, the model's answer is the answer to the same line on
 distinct objects (`handle line`: the value computed in the exponent, cross-checked against the hand model). -/
